@@ -293,6 +293,14 @@ func checkC10(c *Check) {
 			run := newSandbox()
 			rr := RunBash(run, ta.Script, RunOpts{Timeout: 10 * time.Second})
 			os.RemoveAll(run)
+			if rr.TimedOut {
+				if verdict, r2 := DecideTimeout(ta.Script, 200*ref.Steps+20000, RunOpts{}, newSandbox); verdict == "finished" {
+					rr = r2
+				} else if verdict == "inconclusive" {
+					c.Inconclusive("base program: bash watchdog fired twice without a step-limit verdict")
+					continue
+				}
+			}
 			if rr.TimedOut || rr.Stdout != ref.Stdout || rr.Exit != ref.Exit || rr.Stderr != "" {
 				c.Eval("base\x00"+RenderFile(p.Files[0]), true)
 				c.Violation(fmt.Sprintf("base-program/%d", len(bases)), "a program of the workload does not behave like the reference before any renaming: "+firstDiff(ref.Stdout, rr.Stdout)+" stderr "+oneLine(clip(rr.Stderr, 200)), map[string]string{"main.tsh": RenderFile(p.Files[0]), "script.sh": ta.Script, "expected.stdout": ref.Stdout})
@@ -532,6 +540,17 @@ func checkC10(c *Check) {
 			run := newSandbox()
 			rr := RunBash(run, ta.Script, RunOpts{Timeout: 6 * time.Second})
 			os.RemoveAll(run)
+			if rr.TimedOut {
+				// decided on logical steps, not on wall time
+				verdict, r2 := DecideTimeout(ta.Script, 200*b.ref.Steps+20000, RunOpts{}, newSandbox)
+				switch verdict {
+				case "finished":
+					rr = r2
+				case "inconclusive":
+					c.Inconclusive("bash watchdog fired twice without a step-limit verdict")
+					return
+				}
+			}
 			c.Eval(fmt.Sprintf("bash/%d/%s/%s", j.bi, j.role, j.to), true)
 			if rr.TimedOut || rr.Stdout != b.ref.Stdout || rr.Exit != b.ref.Exit || rr.Stderr != "" {
 				files["script.sh"] = ta.Script
@@ -539,7 +558,7 @@ func checkC10(c *Check) {
 				files["observed.stderr"] = clip(rr.Stderr, 2000)
 				what := "stdout differs: " + firstDiff(b.ref.Stdout, rr.Stdout)
 				if rr.TimedOut {
-					what = "script did not finish within 6 s"
+					what = fmt.Sprintf("script does not terminate (more than %d shell steps where the reference needs %d)", 200*b.ref.Steps+20000, b.ref.Steps)
 				} else if rr.Stdout == b.ref.Stdout {
 					what = fmt.Sprintf("exit %d (expected %d), stderr %q", rr.Exit, b.ref.Exit, oneLine(clip(rr.Stderr, 160)))
 				}
